@@ -24,6 +24,7 @@ type c09ex struct {
 	direct bool
 	ids    map[string]string
 	begun  map[string]bool
+	to     string // the destination as the owner spells it
 }
 
 func (e *c09ex) u(name string) *simpeer.User {
@@ -88,14 +89,29 @@ func (e *c09ex) Exec(op string) string {
 	}
 	wd := theWorld()
 	if w[0] == "reset" {
-		if len(w) != 2 {
+		// reset d|r [lc | <given>]: "lc" = the owner spells the destination channel in lower case (forward
+		// swaps only); <given> = what the home channel has given out to the other one before (default 1000000)
+		if len(w) != 2 && len(w) != 3 {
 			return "bad-op"
+		}
+		e.to = "CC"
+		given := int64(1000000)
+		if len(w) == 3 {
+			if w[2] == "lc" && w[1] == "d" {
+				e.to = "cc"
+			} else if n, err := strconv.ParseInt(w[2], 10, 64); err == nil && n >= 0 {
+				given = n
+			} else {
+				return "bad-op"
+			}
 		}
 		e.direct = w[1] == "d"
 		e.a = wd.AddChannel("VT", world.Options{})
 		e.b = wd.AddChannel("CC", world.Options{})
 		e.a.Clock, e.b.Clock = 1000, 1000
-		e.b.L.State[rawKey(e.b, "2d", "VT")] = big.NewInt(1000000).Bytes()
+		if given > 0 {
+			e.b.L.State[rawKey(e.b, "2d", "VT")] = big.NewInt(given).Bytes()
+		}
 		e.ids, e.begun = map[string]string{}, map[string]bool{}
 		return "ok"
 	}
@@ -143,7 +159,7 @@ func (e *c09ex) Exec(op string) string {
 		}
 		aj, _ := json.Marshal(map[string]any{"assets": js})
 		h := sha3.Sum256([]byte(key(w[1], "right")))
-		args := e.a.Signed(e.u(w[2]), "multiSwapBegin", e.sym(), string(aj), "CC", hex.EncodeToString(h[:]))
+		args := e.a.Signed(e.u(w[2]), "multiSwapBegin", e.sym(), string(aj), e.to, hex.EncodeToString(h[:]))
 		id := e.id(w[1])
 		e.nontrivial = true
 		if w[4] == "task" || e.begun[w[1]] {
@@ -185,7 +201,7 @@ func (e *c09ex) Exec(op string) string {
 		idb, _ := hex.DecodeString(e.id(w[1]))
 		h := sha3.Sum256([]byte(key(w[1], "right")))
 		b := e.b.ExecBatch(&fpb.Batch{MultiSwaps: []*fpb.MultiSwap{{Id: idb, Creator: []byte("0000"), Owner: e.u(w[2]).AddrRaw, Token: e.sym(),
-			Assets: pa, From: "VT", To: "CC", Hash: h[:], Timeout: 1}}})
+			Assets: pa, From: "VT", To: e.to, Hash: h[:], Timeout: 1}}})
 		if b.Resp == nil || len(b.Resp.SwapResponses) != 1 || b.Resp.SwapResponses[0].GetError() != nil {
 			return "err"
 		}
@@ -283,7 +299,15 @@ func genC09(c *Cfg, emit func([]string)) {
 	users := []string{"u0", "u1"}
 	for i := 0; i < nRand; i++ {
 		dir := []string{"d", "r"}[c.Rng.Intn(2)]
-		h := []string{"reset " + dir, "fund u0 g1 100", "fund u0 g2 50", "fund u1 g1 40"}
+		reset := "reset " + dir
+		switch {
+		case dir == "d" && c.Rng.Intn(3) == 0:
+			reset += " lc"
+		case dir == "r" && c.Rng.Intn(2) == 0:
+			// the home channel has given out less than the lists ask back: an answer is all or nothing
+			reset += " " + []string{"0", "29", "30", "40", "49", "50", "55", "80"}[c.Rng.Intn(8)]
+		}
+		h := []string{reset, "fund u0 g1 100", "fund u0 g2 50", "fund u1 g1 40"}
 		type sw struct{ sym, user, as string }
 		var sws []sw
 		n := 4 + c.Rng.Intn(12)
@@ -326,8 +350,15 @@ func genC09(c *Cfg, emit func([]string)) {
 			"cancelA m1 u1", "cancelA m1 u0", "tickA 10799", "cancelA m1 u0", "dump", "tickA 1", "cancelA m1 u0", "dump", "cancelA m1 u0"})
 		emit([]string{"reset " + dir, "fund u0 g1 100", "fund u0 g2 50", "begin m1 u0 g1:30+g2:51 batch", "dump", "begin m2 u0 g1:30+g2:50+g1:71 task", "dump", "begin m3 u0 g1:30+g2:50+g1:70 task", "dump"})
 		emit([]string{"reset " + dir, "fund u0 g1 100", "begin m1 u0 g1:30 batch", "doneA m1 right", "dump", "answer m1 u0 g1:30", "doneA m1 right", "dump", "done m1 right", "dump", "doneA m1 right", "dump"})
+		if dir == "r" {
+			for _, g := range []string{"0", "29", "30", "49", "50", "54", "55"} {
+				emit([]string{"reset r " + g, "fund u0 g1 100", "fund u0 g2 50", "begin m1 u0 g1:30+g2:20+g1:5 batch", "dump", "answer m1 u0 g1:30+g2:20+g1:5", "dump", "done m1 right", "dump", "rdone m1 right", "dump"})
+			}
+		} else {
+			emit([]string{"reset d lc", "fund u0 g1 100", "fund u0 g2 50", "begin m1 u0 g1:30+g2:20 batch", "dump", "answer m1 u0 g1:30+g2:20", "dump", "done m1 right", "dump", "rdone m1 right", "dump"})
+		}
 		emit([]string{"reset " + dir, "fund u0 g1 100", "begin m1 u0 g1:30 batch", "answer m1 u0 g1:30", "done m1 wrong", "done m1 right", "dump", "done m1 right", "rdone m1 wrong", "rdone m1 right", "dump", "rdone m1 right", "cancelB m1 u0", "tickB 1000", "cancelB m1 u0"})
 	}
-	c.Rule = fmt.Sprintf("%d random histories: multi-swaps of 1..3 assets (also the same group twice, empty list, zero and negative amounts, 2nd/3rd asset under-funded by 1) begun through batches and task lists (incl. a second begin under an open id), answered, completed with right/wrong keys on the destination and (never allowed) on the origin record, cancelled by creator or stranger on the origin record and on the answered copy, with the two peer clocks moved to just before / exactly at / after the timeouts; plus directed schedules for the timeout edge and repeated completion; balances of 2 owners x 2 groups on both channels, given counters and records after every step. non-trivial = contains a begin; distinct = sha256", nRand)
+	c.Rule = fmt.Sprintf("%d random histories: multi-swaps of 1..3 assets (also the same group twice, empty list, zero and negative amounts, 2nd/3rd asset under-funded by 1) begun through batches and task lists (incl. a second begin under an open id), answered, completed with right/wrong keys on the destination and (never allowed) on the origin record, cancelled by creator or stranger on the origin record and on the answered copy, with the destination channel spelled in lower case by the owner (forward swaps) and with a home channel that has given out less than a reverse list asks back (answer all-or-nothing: 0, one short of the first asset, between the assets, one short of the total), with the two peer clocks moved to just before / exactly at / after the timeouts; plus directed schedules for the timeout edge and repeated completion; balances of 2 owners x 2 groups on both channels, given counters and records after every step. non-trivial = contains a begin; distinct = sha256", nRand)
 	c.Extra = map[string]any{"random": nRand}
 }
